@@ -11,6 +11,7 @@ import (
 	"log"
 	"os"
 	"path/filepath"
+	"runtime"
 	"sort"
 	"strconv"
 	"strings"
@@ -213,24 +214,46 @@ func c11DispGen(g *hx.Gen) {
 // ---------------------------------------------------------------- c11.setup
 
 var c11Tmp string
+var c11Rel string // c11Tmp relative to the working directory (placeholder @R@)
 var c11Files = map[string]string{}
 
 func c11Setup() error {
 	log.SetOutput(io.Discard)
 	casket.Quiet = true // a start prints "Activating privacy features..." on stdout otherwise (it would end up in a replayed answer)
+	if c11IsWorker() {
+		c11Tmp = os.Getenv(c11WorkerEnv) // the parent's directory; the parent removes it
+		c11SetRel()
+		return nil
+	}
 	d, err := os.MkdirTemp("", "c11-")
 	if err != nil {
 		return err
 	}
 	c11Tmp = d
+	c11SetRel()
 	os.WriteFile(filepath.Join(d, "htpasswd"), []byte("bob:{SHA}W6ph5Mm5Pz8GgiULbPgzG37mj9g=\n"), 0o644)
 	os.WriteFile(filepath.Join(d, "bad.htpasswd"), []byte("no colon here\n"), 0o644)
 	os.WriteFile(filepath.Join(d, "file.txt"), []byte("hello {{.}}\n"), 0o644)
 	os.Mkdir(filepath.Join(d, "dir"), 0o755)
-	return nil
+	return c11ReloadFiles(d)
+}
+
+// basicauth joins the name after htpasswd= to the site root ("." unless a root directive says otherwise), so an
+// absolute name is never found: @R@ names the harness directory relative to the working directory.
+func c11SetRel() {
+	c11Rel = c11Tmp
+	if wd, err := os.Getwd(); err == nil {
+		if r, err := filepath.Rel(wd, c11Tmp); err == nil {
+			c11Rel = r
+		}
+	}
 }
 
 func c11Teardown() {
+	if c11IsWorker() {
+		return
+	}
+	c11KillWorkers()
 	if c11Tmp != "" {
 		os.RemoveAll(c11Tmp)
 	}
@@ -241,7 +264,10 @@ type c11res struct {
 	pan interface{}
 }
 
+var c11Loads int // loads since the case began (worker process)
+
 func c11RunMode(body []byte, validate bool) (string, string) {
+	c11Loads++
 	ch := make(chan c11res, 1)
 	go func() {
 		defer func() {
@@ -271,13 +297,49 @@ func c11RunMode(body []byte, validate bool) (string, string) {
 }
 
 // c11.setup  directive  confighex     (the placeholder @T@ in the config is the harness' temp directory)
+//
+// The harness process hands the case to its worker process (c11iso.go); the worker runs c11SetupLocal.
 func c11SetupEval(f []string) (string, []string) {
 	if len(f) != 2 {
 		return "bad-case", nil
 	}
-	body := []byte(strings.ReplaceAll(hx.UnHS(f[1]), "@T@", c11Tmp))
+	if !c11IsWorker() {
+		return c11Isolated("c11.setup", f, 4, "total")
+	}
+	return c11InWorker(c11SetupLocal, f)
+}
+
+// c11InWorker runs one case in the worker process and wraps answer and tags into the worker's answer line.
+func c11InWorker(eval func([]string) (string, []string), f []string) (out string, tags []string) {
+	if f[0] == c11Ping { // the parent wants to know whether the process is still alive a moment after a case
+		time.Sleep(3 * time.Millisecond)
+		return c11WorkerAnswer("pong", nil), nil
+	}
+	before := runtime.NumGoroutine()
+	c11Loads = 0
+	defer func() {
+		if r := recover(); r != nil { // a panic of the harness' own code
+			out, tags = "PANIC:harness:"+strings.SplitN(fmt.Sprint(r), "\n", 2)[0], []string{"dir=" + f[0]}
+		}
+		c11Settle(before)
+		// for the parent (askSettled): goroutines left behind per load, rounded up
+		grew, loads := runtime.NumGoroutine()-before, c11Loads
+		if loads > 1 && grew > 0 {
+			grew = (grew + loads - 1) / loads
+		}
+		tags = append(tags, fmt.Sprintf("grew=%d", grew))
+		out, tags = c11WorkerAnswer(out, tags), nil
+	}()
+	return eval(f)
+}
+
+func c11SetupLocal(f []string) (string, []string) {
+	body := []byte(strings.ReplaceAll(strings.ReplaceAll(hx.UnHS(f[1]), "@T@", c11Tmp), "@R@", c11Rel))
 	v, vmsg := c11RunMode(body, true)
-	s, smsg := c11RunMode(body, false)
+	s, smsg := "skipped", ""
+	if v != "TIMEOUT" { // the hung validation still holds whatever it holds: a start now would only tell the same story
+		s, smsg = c11RunMode(body, false)
+	}
 	tags := []string{"dir=" + f[0], "validate=" + v}
 	out := "total"
 	switch {
@@ -298,7 +360,7 @@ func c11SetupEval(f []string) (string, []string) {
 	if strings.Contains(string(body), "{\n") {
 		tags = append(tags, "sub-block")
 	}
-	return strings.ReplaceAll(out, c11Tmp, "@T@"), tags
+	return strings.ReplaceAll(strings.ReplaceAll(out, c11Rel, "@R@"), c11Tmp, "@T@"), tags
 }
 
 // the package directory of each directive (the anchors of C11)
@@ -404,6 +466,39 @@ func c11Harvest(n ast.Node, consts map[string]string, seen map[string]bool) {
 	})
 }
 
+// c11CaseWords: the words of a package that label a `case` clause — the names of its sub-directives (and of the
+// directive-level keywords), without the value tables (cipher names, curves, policies) the full vocabulary has.
+func c11CaseWords(repo, pkg string) []string {
+	files := c11ParsePkg(repo, pkg)
+	consts := c11Consts(files)
+	seen := map[string]bool{}
+	for _, af := range files {
+		ast.Inspect(af, func(n ast.Node) bool {
+			if cc, ok := n.(*ast.CaseClause); ok {
+				for _, e := range cc.List {
+					switch x := e.(type) {
+					case *ast.BasicLit:
+						if s, err := strconv.Unquote(x.Value); x.Kind == token.STRING && err == nil && c11Word(s) {
+							seen[s] = true
+						}
+					case *ast.Ident:
+						if v, ok := consts[x.Name]; ok && c11Word(v) {
+							seen[v] = true
+						}
+					}
+				}
+			}
+			return true
+		})
+	}
+	var out []string
+	for s := range seen {
+		out = append(out, s)
+	}
+	sort.Strings(out)
+	return out
+}
+
 const c11Module = "github.com/tmpim/casket"
 
 // c11Vocab returns the keyword vocabulary of a directive:
@@ -504,8 +599,21 @@ func c11Vocab(repo, pkg string) (own, helper []string) {
 var c11Core = []string{"a", "/", "/p", "0", "1", "-1", "404", "5s", "off", "*", "@T@/file.txt", "@T@/nope", "localhost:1", "\"\"", "x=y", "{path}"}
 var c11More = []string{"99999999999999999999", "9223372036854775808", "1.5", "1KB", "-1MB", "10h", "-1s", "1x", "abc", "on", "http://localhost:1", "https://127.0.0.1:1",
 	"unix:/tmp/none.sock", ":", "::", "[::1]:80", "a,b", "a|b", "(", "[", "**", "\\", "%", "{{", "{{.}", "{", "}", "\"q arg\"", "\"multi\nline\"", "é", "htpasswd=@T@/htpasswd",
-	"htpasswd=@T@/nope", "htpasswd=@T@/bad.htpasswd", "htpasswd=", "@T@/dir", "@T@", ".", "..", "self_signed", "max", "tls1.2", "tls1.3", "p256", "rsa2048", "localhost:1-3", "localhost:3-1",
-	"localhost:a-b", "srv://a", "srv+https://a", "{$CV_NOPE}", "+X", "-X", "X-H", "300", "301", "999", "0.0.0.0/0", "1.2.3.4/33", "::/0", "10", "php", "startup", "shutdown", "{>X}", "!"}
+	"htpasswd=@R@/htpasswd", "htpasswd=@R@/nope", "htpasswd=@R@/bad.htpasswd", "htpasswd=", "@T@/dir", "@T@", ".", "..", "self_signed", "max", "tls1.2", "tls1.3", "p256", "rsa2048", "localhost:1-3", "localhost:3-1",
+	"localhost:a-b", "srv://a", "srv+https://a", "{$CV_NOPE}", "+X", "-X", "X-H", "300", "301", "999", "0.0.0.0/0", "1.2.3.4/33", "::/0", "10", "php", "startup", "shutdown", "{>X}", "!",
+	// durations: zero, negative, unit-less, overflowing, fractional (a ticker or a timeout built from one must cope)
+	"0s", "-5m", "0", "-0s", "9999999h", "1h2m3s", ".5s", "1ns", "5S",
+	// port ranges: huge, overflowing, inverted, empty, negative, outside 0-65535, with scheme and path, IPv6
+	"localhost:1-9223372036854775807", "localhost:1-99999999", "localhost:9223372036854775807-9223372036854775808", "localhost:65535-65536",
+	"localhost:60000-65535", "localhost:5-5", "localhost:-1-5", "localhost:1--5", "localhost:-5", "localhost:1-", "http://localhost:1-3/x", "[::1]:1-3", "localhost:00001-00003",
+	"unix:/tmp/none.sock:1-3"}
+
+// values a sub-block line is tried with besides the malformed ones: the well-formed shapes of every kind of value
+// (a failure behind a VALID line is as much a failure), zero / negative durations and numbers, port ranges
+var c11BlockVals = []string{"0s", "-1s", "1h", "-1", "off", "localhost:1-99999999999", "localhost:3-1", "localhost:1-3"}
+
+// value pairs for two keyword lines in one block: (path, zero duration), (path, negative duration), …
+var c11PairVals = [][2]string{{"/p", "0s"}, {"/p", "-1s"}, {"10s", "0"}, {"0s", "/p"}, {"5", "10s"}, {"-1s", "5"}}
 
 func c11Line(toks []string) string { return strings.Join(toks, " ") }
 
@@ -623,19 +731,20 @@ func c11SetupGen(g *hx.Gen) {
 	sort.Strings(dirs)
 	r := g.Rng
 	all := append(append([]string{}, c11Core...), c11More...)
-	c11SiteCases(repo, func(d, cfg string) {
-		if c11KeysOK(cfg) {
-			g.Case(d, hx.HS(cfg))
+	// every configuration once; its number fixes which worker process evaluates it and when (c11iso.go)
+	count := 0
+	gcase := func(d, cfg string) {
+		h := hx.HS(cfg)
+		if c11KeysOK(cfg) && c11Ordered("c11.setup\t"+d+"\t"+h, count) {
+			count++
+			g.Case(d, h)
 		}
-	})
+	}
+	c11SiteCases(repo, gcase)
 	for _, d := range dirs {
 		own, helper := c11Vocab(repo, c11Pkg[d])
 		vocab := append(append([]string{}, own...), helper...)
-		emit := func(cfg string) {
-			if c11KeysOK(cfg) {
-				g.Case(d, hx.HS(cfg))
-			}
-		}
+		emit := func(cfg string) { gcase(d, cfg) }
 		argsets := [][]string{{}}
 		// exhaustive: 0..2 arguments over the core classes and the directive's own keywords
 		cls := append(append([]string{}, c11Core...), vocab...)
@@ -645,6 +754,21 @@ func c11SetupGen(g *hx.Gen) {
 		for _, a := range c11Core {
 			for _, b := range c11Core {
 				argsets = append(argsets, []string{a, b})
+			}
+		}
+		// a keyword next to each core class, in both orders (`rewrite not /a`), and a sub-directive name before two values
+		caseWords := c11CaseWords(repo, c11Pkg[d])
+		for _, kw := range vocab {
+			for _, a := range c11Core {
+				argsets = append(argsets, []string{kw, a}, []string{a, kw})
+			}
+		}
+		few := []string{"a", "/", "0", "5s", "\"\"", "@T@/file.txt"}
+		for _, kw := range caseWords {
+			for _, a := range few {
+				for _, b := range few {
+					argsets = append(argsets, []string{kw, a, b})
+				}
 			}
 		}
 		for _, as := range argsets {
@@ -671,6 +795,9 @@ func c11SetupGen(g *hx.Gen) {
 			for _, a := range one {
 				variants = append(variants, []string{kw, a})
 			}
+			for _, a := range c11BlockVals {
+				variants = append(variants, []string{kw, a})
+			}
 			for _, ab := range two {
 				variants = append(variants, []string{kw, ab[0], ab[1]})
 			}
@@ -680,10 +807,30 @@ func c11SetupGen(g *hx.Gen) {
 					emit(c11Config(d, lead, [][]string{v}, true, ""))
 				}
 			}
+			// a closing brace in the middle of a line and no line that closes the block after it: the parser ends the
+			// directive there while the dispenser still counts an open block
+			for _, lead := range [][]string{{}, {"/", "a"}} {
+				head := "localhost:2015 {\n\t" + c11Line(append([]string{d}, lead...)) + " {\n\t\t"
+				for _, l := range []string{kw + " } x", kw + " a } x", kw + " a\n\t\tb } {{", "a\n\t\t" + kw + " a b } c d"} {
+					emit(head + l + "\n}\n")
+					emit(head + l + "\n")
+				}
+			}
 			short := [][]string{{kw}, {kw, "5"}, {kw, "/p"}, {kw, "10s"}, {kw, "1MB"}, {kw, "on"}, {kw, "a", "5"}, {kw, "/p", "1MB"}}
 			for _, lk := range own {
 				for _, v := range short {
 					emit(c11Config(d, []string{lk}, [][]string{v}, true, ""))
+				}
+			}
+		}
+		// two sub-block lines, both a keyword of the directive with a value: a setting is often only used once another
+		// one has switched the feature on (`health_check /p` + `health_check_interval 0s`), in either order
+		for _, lead := range [][]string{{}, {"/", "a"}} {
+			for _, k1 := range caseWords {
+				for _, k2 := range caseWords {
+					for _, pv := range c11PairVals {
+						emit(c11Config(d, lead, [][]string{{k1, pv[0]}, {k2, pv[1]}}, true, ""))
+					}
 				}
 			}
 		}
@@ -729,6 +876,8 @@ func c11SetupGen(g *hx.Gen) {
 					for k := r.Intn(4); k > 0; k-- {
 						if len(vocab) > 0 && r.Chance(1, 5) {
 							line = append(line, hx.Pick(r, vocab))
+						} else if r.Chance(1, 3) {
+							line = append(line, hx.Pick(r, append(append([]string{}, one...), c11BlockVals...)))
 						} else {
 							line = append(line, hx.Pick(r, all))
 						}
@@ -747,5 +896,6 @@ func c11SetupGen(g *hx.Gen) {
 
 func init() {
 	hx.Register(&hx.Stream{ID: "C11", Name: "c11.disp", Gen: c11DispGen, Eval: c11DispEval})
-	hx.Register(&hx.Stream{ID: "C11", Name: "c11.setup", Gen: c11SetupGen, Eval: c11SetupEval, Serial: true, Setup: c11Setup, Teardown: c11Teardown})
+	// c11.setup is not Serial: its cases run in c11Slots worker processes, in an order the generator fixes
+	hx.Register(&hx.Stream{ID: "C11", Name: "c11.setup", Gen: c11SetupGen, Eval: c11SetupEval, Setup: c11Setup, Teardown: c11Teardown})
 }
